@@ -1080,8 +1080,9 @@ func c15RunD(f []string, payload string) string {
 }
 
 func c15RunK(f []string, payload string) string {
-	n, _ := strconv.Atoi(f[0])
-	c := &c15Run{src: unhx(f[3]), n: n, bpops: c15List(f[1], ","), timing: "poll", seed: 1, payload: payload}
+	boe := strings.HasSuffix(f[0], "e")
+	n, _ := strconv.Atoi(strings.TrimSuffix(f[0], "e"))
+	c := &c15Run{src: unhx(f[3]), n: n, boe: boe, bpops: c15List(f[1], ","), timing: "poll", seed: 1, payload: payload}
 	threads, _, _, hang := c15Debugged(c, true)
 	released, killed, fin := 0, 0, 0
 	anySusp := false
@@ -1614,7 +1615,12 @@ func init() {
 				}
 				// StopThreads
 				g.Count("K")
-				g.Emit(fmt.Sprintf("K %d %s %s %s", 1+r.Intn(4), c15BpOps(r, nLines, visited), c15TraceStr(trace), hx(src)))
+				kn := strconv.Itoa(1 + r.Intn(4))
+				if r.Intn(3) == 0 && c15PhantomFree(trace) {
+					kn += "e" // StopThreads with breakOnError on
+					g.Count("K.boe")
+				}
+				g.Emit(fmt.Sprintf("K %s %s %s %s", kn, c15BpOps(r, nLines, visited), c15TraceStr(trace), hx(src)))
 			}
 			for _, d := range c15Directed {
 				_, _, trace := c15Plain(d[0])
